@@ -9,7 +9,11 @@ package dastard
 // without another scheduling point, so that "channel empty" implies "everything
 // published so far has been recorded".
 
-import "verif/simrt"
+import (
+	"time"
+
+	"verif/simrt"
+)
 
 // startSinks (re)makes the package-level channels inside the bubble and drains them.
 func startSinks(sc *SourceControl, cycle func() int) *sinks {
@@ -21,6 +25,9 @@ func startSinks(sc *SourceControl, cycle func() int) *sinks {
 	simrt.GoHarness("sink-records", func() {
 		for {
 			simrt.Y("sink:records")
+			for sk.holdRecs {
+				simrt.SleepSim(50 * time.Microsecond)
+			}
 			batch, ok := <-rc
 			if !ok {
 				return
@@ -34,6 +41,9 @@ func startSinks(sc *SourceControl, cycle func() int) *sinks {
 	simrt.GoHarness("sink-summaries", func() {
 		for {
 			simrt.Y("sink:summaries")
+			for sk.holdSums {
+				simrt.SleepSim(50 * time.Microsecond)
+			}
 			batch, ok := <-sm
 			if !ok {
 				return
